@@ -2,6 +2,7 @@
 //
 //	reset | route <pat> <h|nil> | routef <pat> <h|nil> | unroute <pat> | default <h|nil> | defaultf <h|nil>
 //	mw <name> | serve <path|none> | served <path|none> | match <path>
+//	churn <n> <prefix> <h>   (n modifications of the route table: Handle / HandleRemove of <prefix>0, <prefix>0, <prefix>1, ...)
 //	getroute <pat> | getroutes | seterr <name> | servefail <path|none>
 //	inner <registration op> | mount <pat> <var> | msgnew <path|none> | msgpath <path|none> | msgserve
 //
